@@ -8,6 +8,7 @@ CONSTANTS
   MaxCrashes = 2
   OpKinds = {"PutODSQ4", "PutODS", "RemoveODSQ4", "RemoveQ4"}
   ValidateQ4OnOpen = TRUE
+  Prealloc = FALSE
   EmitCases = TRUE
 VIEW view
 INVARIANTS TypeOK LinkedIsComplete NoPartialServed LookupRight PutNeverFails RePutWorks RemoveRemoves EmptyFileComplete DirsFirst CaseOut
